@@ -129,10 +129,11 @@ def run_load(repo, n, width, rpc, indexers, gap=0, type_code="IU2"):
     return loads[0], ranges, content
 
 
-def run_load_with_fault(repo, n, width, rpc, indexers, at, gap=0, type_code="IU2"):
+def run_load_with_fault(repo, n, width, rpc, indexers, at, gap=0, type_code="IU2", kind="read"):
     """one load during which the request number ``at`` (0-based, counted over the whole load) fails once with a connection reset
-    -> (Load, ranges, content); Load.fault['fired'] tells whether the load got that far"""
-    loads, ranges, content = run_loads(repo, n, width, rpc, [indexers], gap, type_code, fault={"kind": "read", "at": at})
+    (kind 'read') or is served only in part (kind 'short') -> (Load, ranges, content); Load.fault['fired'] tells whether the load got
+    that far"""
+    loads, ranges, content = run_loads(repo, n, width, rpc, [indexers], gap, type_code, fault={"kind": kind, "at": at})
     return loads[0], ranges, content
 
 
@@ -291,7 +292,7 @@ def judge(load, ranges, content, n, rpc, indexers):
     return out
 
 
-def run_wrapper_load(repo, n, width, rpc, key, gap=0, type_code="IU2"):
+def run_wrapper_load(repo, n, width, rpc, key, gap=0, type_code="IU2", fault=None):
     """ONE load as xarray issues it: LazilyIndexedWrapper(array, lock)._raw_indexing_method(key), with the wrapper built by its own
     __init__ around the model Array.  However many times the wrapper indexes the array, all requests are recorded into one
     Load.  -> (Load, ranges, content)"""
@@ -299,6 +300,8 @@ def run_wrapper_load(repo, n, width, rpc, key, gap=0, type_code="IU2"):
     cur = {"load": Load()}
     load = _Proxy(cur)
     ld = cur["load"]
+    if fault is not None:
+        ld.fault = fault
     built = _build(repo, load, content, ranges, n, width, rpc, type_code)
     if isinstance(built, str):
         ld.outcome = built
@@ -309,7 +312,7 @@ def run_wrapper_load(repo, n, width, rpc, key, gap=0, type_code="IU2"):
     xsc = I.module_scope(xm)
     result = lambda I_, a, kw: Obj("Result", OrderedDict())
     xsc.vars["np"] = Obj("numpy", OrderedDict(dtype=Fn("py", impl=lambda I_, a, kw: a[0] if a else Const(None), name="np.dtype"), concatenate=Fn("py", impl=result, name="np.concatenate"),
-                                               vstack=Fn("py", impl=result, name="np.vstack"), ascontiguousarray=Fn("py", impl=lambda I_, a, kw: a[0], name="np.ascontiguousarray"),
+                                               vstack=Fn("py", impl=result, name="np.vstack"), stack=Fn("py", impl=result, name="np.stack"), ascontiguousarray=Fn("py", impl=lambda I_, a, kw: a[0], name="np.ascontiguousarray"),
                                                asarray=Fn("py", impl=lambda I_, a, kw: a[0], name="np.asarray")))
     lock = Obj("Lock", OrderedDict())
     lock.fields["__enter__"] = Fn("py", impl=lambda I_, a, k: lock, name="__enter__")
